@@ -306,6 +306,9 @@ func (vc *VC) Discharge(obls []*Obligation, workDir string, quickMs, slowMs int)
 	groups := map[gkey][]int{}
 	var order []gkey
 	for i, o := range obls {
+		if o.Kind == "ground" {
+			continue // decided by evaluation
+		}
 		k := gkey{o.Pos, o.Guard}
 		if o.Cover {
 			k = gkey{-1 - i, ""}
